@@ -13,6 +13,8 @@ CONSTANTS LeafW,       \* set of leaf widths
           MaxDepth,    \* nesting depth of the port expression (leaf = 0)
           ConcatK,     \* p + q is built only if depth(p) + depth(q) <= ConcatK
           BoolForms,   \* also construct leaves with invert=True / invert=False
+          LeafDirs,    \* directions of the leaves
+          NegKeys,     \* also keys counted from the end / with omitted bounds (on operands without a unary operation inside)
           WithSim      \* compute buffer observations for the stimulus in the file $IOBUF_STIM
 
 (* stimulus: a sequence of [o, pin : Seq(BOOLEAN) of the maximal port width, oe, ei, eo : BOOLEAN]; *)
@@ -67,20 +69,33 @@ UnaryOK ==
     /\ st.err = "" /\ sn >= 1
     /\ IF sn = 1 THEN Top(st).d + 1 <= MaxDepth
        ELSE Max(st.stack[1].d, Top(st).d + 1) + 1 <= MaxDepth /\ st.stack[1].d + Top(st).d + 1 <= ConcatK
-(* lo > hi is left out: the underlying language refuses such slices of values (IndexError) *)
-DoSlice(lo, hi) == UnaryOK /\ lo <= hi /\ hi <= Width(Top(st).p)
-                   /\ Emit([op |-> "slice", lo |-> lo, hi |-> hi])
-DoIndex(i) == UnaryOK /\ i < Width(Top(st).p) /\ Emit([op |-> "index", i |-> i])
+(* keys: plain ones are 0 <= lo <= hi <= len and 0 <= i < len; with NegKeys, operands made of leaves and + only also  *)
+(* get every Python form: bounds in -len..len or omitted, indices -len..-1.  Slices that select backwards are left out: *)
+(* the underlying language refuses such slices of values (IndexError).                                                  *)
+Plain == ~Top(st).u
+DoSlice(lo, olo, hi, ohi) ==
+    /\ UnaryOK
+    /\ LET p == Top(st).p
+           w == Width(p)
+       IN /\ (olo => lo = 0) /\ (ohi => hi = 0)
+          /\ lo >= -w /\ lo <= w /\ hi >= -w /\ hi <= w
+          /\ (~NegKeys \/ ~Plain) => ~olo /\ ~ohi /\ lo >= 0 /\ hi >= 0
+          /\ KeyLo(p, lo, olo) <= KeyHi(p, hi, ohi)
+    /\ Emit([op |-> "slice", lo |-> lo, olo |-> olo, hi |-> hi, ohi |-> ohi])
+DoIndex(i) ==
+    /\ UnaryOK
+    /\ LET w == Width(Top(st).p) IN i < w /\ i >= -w /\ (i < 0 => NegKeys /\ Plain)
+    /\ Emit([op |-> "index", i |-> i])
 DoInvert == UnaryOK /\ Emit([op |-> "invert"])
 DoConcat == st.err = "" /\ sn = 2 /\ Emit([op |-> "concat"])
 
 MaxW == 2 * (CHOOSE w \in LeafW : \A v \in LeafW : v <= w)
 Init == prog = <<>> /\ st = Start /\ exp = Expect(Start)
 Next ==
-    \/ \E dir \in Dirs, w \in LeafW : \E inv \in Bits(w) : PushLeaf(dir, w, inv)
-    \/ \E dir \in Dirs, w \in LeafW, b \in BOOLEAN : PushLeafBool(dir, w, b)
-    \/ \E lo, hi \in 0..MaxW : DoSlice(lo, hi)
-    \/ \E i \in 0..MaxW : DoIndex(i)
+    \/ \E dir \in LeafDirs, w \in LeafW : \E inv \in Bits(w) : PushLeaf(dir, w, inv)
+    \/ \E dir \in LeafDirs, w \in LeafW, b \in BOOLEAN : PushLeafBool(dir, w, b)
+    \/ \E lo, hi \in (-MaxW)..MaxW, olo, ohi \in BOOLEAN : DoSlice(lo, olo, hi, ohi)
+    \/ \E i \in (-MaxW)..MaxW : DoIndex(i)
     \/ DoInvert
     \/ DoConcat
 Spec == Init /\ [][Next]_vars
@@ -90,6 +105,7 @@ Ports == {st.stack[j].p : j \in 1..sn}
 PortsWellFormed == \A p \in Ports : WellFormed(p) /\ SrcInjective(p)
 InvertInvolution == \A p \in Ports : InvertLaw(p)
 SliceLaws == \A p \in Ports : SliceLaw(p)
+KeyLaws == \A p \in Ports : KeyLaw(p)
 ConcatLaws == sn = 2 => ConcatLaw(st.stack[1].p, st.stack[2].p)
 Loopback == \A p \in Ports : LoopbackLaw(p)
 (* the two operands of a sum never share a physical wire (programs use every leaf once) *)
